@@ -311,7 +311,13 @@ impl TmplGroup {
             Ok(())
         })
         .unwrap();
-        w.finish() + self.extra_runtime_string.as_str()
+        let mut s = w.finish();
+        if self.extra_runtime_string.len() > 0 {
+            // the last declaration of the runtime is not terminated
+            s.push(';');
+            s.push_str(&self.extra_runtime_string);
+        }
+        s
     }
 
     /// Output js runtime environment js var name list.
